@@ -147,8 +147,10 @@ class DocGen:
         if kind == 'drawing':
             dsc = r.choice(['', ' descr="d &amp; &lt;x&gt;"', ' descr=""', ' descr="plain alt"'] if P.get('alt_markup', True) else ['', ' descr="plain alt"', ' descr="alt two"'])
             e = r.choice(['r:embed="rId20"', 'r:embed="rId404"', 'r:link="rId21"', '', 'r:embed="rId21"'] if P.get('dangling') else ['r:embed="rId20"', 'r:embed="rId21"', ''])
+            if P.get('no_r'): e = ''
             return f'<w:drawing><wp:inline><wp:extent cx="1" cy="1"/><wp:docPr id="1" name="n"{dsc}/><a:graphic><a:graphicData uri="u"><a:blip {e}/></a:graphicData></a:graphic></wp:inline></w:drawing>'
         if kind == 'pict':
+            if P.get('no_r'): return '<w:pict><v:shape><v:imagedata croptop="1f"/></v:shape></w:pict>'
             return r.choice(['<w:pict><v:shape><v:imagedata r:id="rId20"/></v:shape></w:pict>', '<w:pict><v:shape><v:imagedata croptop="1f"/></v:shape></w:pict>',
                              '<w:object><v:shape><v:imagedata r:id="rId404"/></v:shape></w:object>' if P.get('dangling') else '<w:object><v:shape><v:imagedata r:id="rId20"/></v:shape></w:object>'])
         if kind == 'textbox':
@@ -175,6 +177,10 @@ class DocGen:
     # -- inline level
     def hyperlink(self, d):
         r = self.r; self.c('hyperlink'); self.feat.add('hyperlink')
+        if self.p.get('no_r'):
+            a = r.choice(['w:anchor="bm"', '', 'w:anchor="x" w:tooltip="t"'])
+            inner = ''.join(self.inline(d + 1, in_link=True) for _ in range(r.randint(0, 3)))
+            return f'<w:hyperlink {a}>{inner}</w:hyperlink>'
         opts = ['r:id="rId9"', 'w:anchor="bm"', 'r:id="rId9" w:anchor="bm"', '', 'r:id="" w:anchor="x"', 'w:tooltip="t" r:id="rId9" w:history="1"',
                 'r:id="rId10"', 'r:id="rId9" w:anchor="other"']
         if self.p.get('dangling'): opts.append('r:id="rId404"')
@@ -235,7 +241,7 @@ class DocGen:
             ni = r.choice(['<w:numId w:val="1"/>', '<w:numId w:val="2"/>', '<w:numId w:val="0"/>', '<w:numId w:val="77"/>', '', '<w:numId w:val="3"/>', '<w:numId w:val="1"/>'])
             out += f'<w:numPr>{il}{ni}</w:numPr>'; self.c('numPr'); self.feat.add('list')
         if r.random() < 0.1: out += '<w:rPr><w:b/></w:rPr>'
-        if r.random() < 0.05: out += '<w:sectPr><w:headerReference w:type="default" r:id="rId30"/></w:sectPr>'
+        if r.random() < 0.05 and not self.p.get('no_r'): out += '<w:sectPr><w:headerReference w:type="default" r:id="rId30"/></w:sectPr>'
         return f'<w:pPr>{out}</w:pPr>' if out or r.random() < 0.1 else ''
 
     def par(self, d=0):
@@ -257,10 +263,17 @@ class DocGen:
             for j in range(self.rint('cells')):
                 pr = ''
                 if self.coin('p_span'): pr += f'<w:gridSpan w:val="{r.randint(1, 3)}"/>'; self.feat.add('gridSpan')
+                cont_cell = False
                 if self.coin('p_vmerge'):
-                    pr += r.choice(['<w:vMerge/>', '<w:vMerge w:val="restart"/>', '<w:vMerge w:val="continue"/>']); self.feat.add('vMerge')
+                    vm = r.choice(['<w:vMerge/>', '<w:vMerge w:val="restart"/>', '<w:vMerge w:val="continue"/>']); self.feat.add('vMerge')
+                    pr += vm; cont_cell = 'restart' not in vm
                 if r.random() < 0.05: pr += '<w:hMerge w:val="restart"/>'
                 cont = ''
+                if cont_cell and r.random() < 0.5:
+                    # what Word leaves in a vertically continued cell: an empty paragraph that keeps its properties
+                    out += f'<w:tc><w:tcPr>{pr}</w:tcPr>' + r.choice(['<w:p/>', '<w:p><w:pPr><w:pStyle w:val="Heading1"/></w:pPr></w:p>', '<w:p><w:pPr><w:pStyle w:val="Heading2"/><w:jc w:val="center"/></w:pPr><w:r><w:rPr><w:b/></w:rPr></w:r></w:p>',
+                                                                     '<w:p><w:pPr><w:numPr><w:ilvl w:val="0"/><w:numId w:val="1"/></w:numPr></w:pPr></w:p>', '<w:p><w:pPr><w:rPr><w:i/></w:rPr></w:pPr></w:p>']) + '</w:tc>'
+                    continue
                 if self.coin('p_cell_block'): cont += ''.join(self.block(d + 1) for _ in range(r.randint(1, 2)))
                 if self.coin('p_cell_nopar'):
                     cont = cont or '<w:bookmarkStart w:id="9" w:name="c"/>'; self.feat.add('cell_nopar')
@@ -285,7 +298,7 @@ class DocGen:
                     return ('<w:sdt><w:sdtPr><w:docPartObj><w:docPartGallery w:val="Table of Contents"/></w:docPartObj></w:sdtPr><w:sdtContent>'
                             + ''.join(self.block(d + 1) for _ in range(r.randint(0, 2))) + '</w:sdtContent></w:sdt>')
                 if name == 'cx': return '<w:customXml w:element="e">' + ''.join(self.block(d + 1) for _ in range(r.randint(0, 2))) + '</w:customXml>'
-                return r.choice(['<w:bookmarkStart w:id="4" w:name="z"/>', '<w:altChunk r:id="rId50"/>',
+                return r.choice(['<w:bookmarkStart w:id="4" w:name="z"/>', '<w:altChunk r:id="rId50"/>' if not self.p.get('no_r') else '<w:bookmarkEnd w:id="4"/>',
                                  '<m:oMathPara><m:oMath><m:r><m:t>z</m:t></m:r></m:oMath></m:oMathPara>', self.comment_marker()])
         return self.par(d)
 
@@ -356,12 +369,14 @@ class Package:
 def make_package(rng, prof=None, body=None):
     """returns (Package, meta); meta has the generator statistics and feature set"""
     prof = prof or DEFAULT
-    g = DocGen(rng, prof)
     r = rng
     omit = ('r',) if r.random() < prof.get('p_no_r_ns', 0) else ()
+    if omit: prof = dict(prof, no_r=True)       # a part that does not declare the r prefix cannot use r: attributes
+    g = DocGen(rng, prof)
     NS = ns_decl(omit)
     body_xml = g.body() if body is None else body
     if omit and ('r:' in body_xml): omit = (); NS = ns_decl()
+    if omit: g.feat.add('no_r_namespace')
     pk = Package()
     pk.add('[Content_Types].xml', '<Types xmlns="http://schemas.openxmlformats.org/package/2006/content-types"/>')
     root_rels = [('rId1', 'officeDocument', 'word/document.xml')]
